@@ -396,11 +396,11 @@ class CLock(object):
     def release(self):
         if not self._held:
             raise RuntimeError("release unlocked lock")
-        self._held = False
-        self.owner = None
         s = ACTIVE
         if s is not None and s.me() is not None:
-            s.point("release", self.name)
+            s.point("release", self.name)      # scheduling point BEFORE the operation: others may run while we still hold it
+        self._held = False
+        self.owner = None
 
     def locked(self):
         return self._held
